@@ -45,6 +45,9 @@ var c19Facades = map[string]facadeDef{
 	"Ri": {"", "resource", "/ri/{u-id:digit}", nil},
 	"Pj": {"", "prefix", "/pj/{u-id:digit}", nil},
 	"Rj": {"Pj", "resource", "/{编号:word}", nil},
+	// two facade objects with the same prefix text and equally long, different middleware lists
+	"Pm":  {"", "prefix", "/pm", []string{"M1"}},
+	"Pm2": {"", "prefix", "/pm", []string{"M2"}},
 }
 
 // c19Sys is router A together with its facade objects. They are made once, when the router is made, and live as
@@ -201,6 +204,12 @@ func c19IcptAlphabet() []fstep {
 		{F: "Pj", K: "get", P: "/z"},
 		{F: "Pj", K: "clean"},
 		{F: "", K: "get", P: "/ri/{u-id:digit}"},
+		{F: "Pm", K: "get", P: "/a"},
+		{F: "Pm2", K: "get", P: "/b"},
+		{F: "Pm2", K: "clean"},
+		// TRACE registered by hand (no WithTrace here) and the route removed through the facade without a method list
+		{F: "Pj", K: "handle", P: "/t", Ms: []string{"TRACE", "GET"}},
+		{F: "Pj", K: "remove", P: "/t"},
 	}
 }
 
@@ -421,8 +430,8 @@ var c19RankProbes = func() []hv.Req {
 
 var c19IcptProbes = func() []hv.Req {
 	var qs []hv.Req
-	for _, p := range []string{"/ri/5", "/ri/x", "/pj/5/ab", "/pj/5/z", "/pj/5", "/pj/x/ab"} {
-		for _, m := range []string{"GET", "POST", "OPTIONS"} {
+	for _, p := range []string{"/ri/5", "/ri/x", "/pj/5/ab", "/pj/5/z", "/pj/5", "/pj/x/ab", "/pm/a", "/pm/b", "/pj/5/t"} {
+		for _, m := range []string{"GET", "POST", "OPTIONS", "TRACE"} {
 			qs = append(qs, hv.Req{Method: m, Path: p})
 		}
 	}
